@@ -1,6 +1,6 @@
 (* C08 — non-vacuity examples and the refutation of the pre-repair classification *)
 From Coq Require Import ZArith List Bool Lia.
-From Verif Require Import C08.Model C08.Proofs.
+From Verif Require Import C08.Model C08.Proofs C08.Live.
 Import ListNotations.
 Open Scope Z_scope.
 
@@ -322,3 +322,67 @@ Example ex_cb_isolates :
         (false, Raised (gate_result GAnd ZFailure YPermit)); (true, Returned res_circuit_open)] /\
   circ (br s') = Open /\ fcount (br s') = 3 /\ trips (br s') = 1 /\ zcalls s' = 4 /\ fl' = [].
 Proof. vm_compute. repeat split; repeat constructor; discriminate. Qed.
+
+(* ---------------------------------------------------------------------- *)
+(* live reconfiguration, prompts that cannot be hashed                     *)
+
+Definition hNone := mkHooks false false.
+(* two failures at time 0: OPEN, last failure at 0, timeout 10 *)
+Definition ls_open : lstate := (cfgA, (s_open, [])).
+
+(* c08_live_open_isolates_every_prompt: the timeout is lengthened to 30 during the outage; at 12 (after the OLD
+   timeout) a request, one with an unhashable prompt and the begin of an overlapping one are refused; then the
+   timeout is made "manual reset only" and a request a year later is refused too *)
+Example ex_live_isolates :
+  let ops := [SetTimeout 30; K (Seq (Tick 12), CbReturns); K (Seq (Run (reqS 7)), CbReturns); Odd (reqS 0);
+              K (Begin 4 (reqS 8) InZ, CbReturns); SetThreshold 5; SetTimeout (10 ^ 18);
+              K (Seq (Tick 31622400000000), CbReturns); Odd (reqF 0); K (Seq (Run (reqS 9)), CbReturns)] in
+  let '((c', (s', fl')), rs) := lrun hNone ls_open ops in
+  within (timeout cfgA) (now s_open) 0 ops /\ length rs = 5%nat /\
+  Forall (fun x => x = (true, LReply (Returned res_circuit_open))) rs /\
+  circ (br s') = Open /\ zcalls s' = zcalls s_open /\ spent s' = spent s_open /\
+  timeout c' = 10 ^ 18 /\ threshold c' = 5.
+Proof. vm_compute. repeat split; repeat constructor; intros; discriminate. Qed.
+
+(* c08_live_probe_admitted_at_timeout_in_force: the timeout is shortened to 3 during the outage; at 4 the probe is
+   admitted (and closes the breaker); with the original timeout it would have been refused *)
+Example ex_live_probe_after_shortening :
+  (let '((c', (s', _)), rs) := lrun hNone ls_open [K (Seq (Tick 4), CbReturns); SetTimeout 3;
+                                                     K (Seq (Run (reqS 7)), CbReturns)] in
+   rs = [(true, LReply (Returned (gate_result GAnd ZExecute YPermit)))] /\ circ (br s') = Closed /\ fcount (br s') = 0) /\
+  (let '((c', (s', _)), rs) := lrun hNone ls_open [K (Seq (Tick 4), CbReturns); K (Seq (Run (reqS 7)), CbReturns)] in
+   rs = [(true, LReply (Returned res_circuit_open))] /\ circ (br s') = Open).
+Proof. vm_compute. repeat split; reflexivity. Qed.
+
+(* once the timeout has elapsed an unhashable prompt is not refused: run() raises (cache on: before the agents, the
+   breaker left HALF_OPEN; cache off: after both agents answered), nothing is booked *)
+Example ex_live_odd_probe :
+  (let '((_, (s', _)), rs) := lrun hNone ls_open [K (Seq (Tick 10), CbReturns); Odd (reqS 0)] in
+   rs = [(true, LRaisedInRun)] /\ circ (br s') = HalfOpen /\ fcount (br s') = 2 /\ zcalls s' = zcalls s_open) /\
+  (let '((_, (s', _)), rs) := lrun hNone (cfgOr, (init, [])) [Odd (reqS 0); Odd (reqX 0)] in
+   rs = [(true, LRaisedInRun); (true, LReply (Returned res_error))] /\ circ (br s') = Closed /\
+   fcount (br s') = 1 /\ zcalls s' = 2 /\ ycalls s' = 1).
+Proof. vm_compute. repeat split; reflexivity. Qed.
+
+(* c08_live_open_implies_threshold_reached / c08_live_trip_needs_threshold_in_force /
+   c08_live_opens_at_threshold_in_force: threshold 2; one failure; the threshold is raised to 3: the second failure
+   leaves the breaker CLOSED, the third opens it; lowered to 1 instead: nothing happens until the next failure,
+   which opens it.  A "manual reset only" timeout does not keep the breaker from opening. *)
+Example ex_live_threshold :
+  (let '((_, (s', _)), rs) := lrun hNone (cfgA, (init, []))
+        [K (Seq (Run (reqF 1)), CbReturns); SetThreshold 3; K (Seq (Run (reqF 2)), CbReturns)] in
+   circ (br s') = Closed /\ fcount (br s') = 2 /\ count_failures (lresults rs) = 2) /\
+  (let '((_, (s', _)), rs) := lrun hNone (cfgA, (init, []))
+        [K (Seq (Run (reqF 1)), CbReturns); SetThreshold 3; K (Seq (Run (reqF 2)), CbReturns);
+         K (Seq (Run (reqX 3)), CbReturns)] in
+   circ (br s') = Open /\ fcount (br s') = 3 /\ trips (br s') = 1) /\
+  (let '((_, (s', _)), rs) := lrun hNone (cfgA, (init, []))
+        [K (Seq (Run (reqF 1)), CbReturns); SetThreshold 1; K (Seq (Run (reqS 2)), CbReturns)] in
+   circ (br s') = Closed /\ fcount (br s') = 1) /\
+  (let '((c', (s', _)), rs) := lrun hNone (cfgA, (init, []))
+        [SetTimeout (10 ^ 18); Odd (reqS 0); K (Seq (Run (reqF 1)), CbReturns); K (Seq (Run (reqF 2)), CbReturns);
+         K (Seq (Run (reqS 3)), CbReturns)] in
+   thr_fixed [SetTimeout (10 ^ 18); Odd (reqS 0)] /\
+   circ (br s') = Open /\ trips (br s') = 1 /\ count_failures (lresults rs) = 2 /\ zcalls s' = 2 /\
+   last_failure (br s') = Some 0 /\ timeout c' = 10 ^ 18).
+Proof. vm_compute. repeat split; repeat constructor; reflexivity. Qed.
